@@ -780,6 +780,8 @@ class Interp:
     def schema_klass(self, klass: str) -> str:
         if klass in ("Currency",):
             return "Unit"
+        if klass == "TypeRegistry":
+            return "Registry"
         if klass == "MoneyCls":
             return "QtyCls"
         if klass.startswith("List:"):
@@ -798,7 +800,11 @@ class Interp:
                 if sk == "QtyCls" and self.path.branch(v.t != M.C_QUANTITY):
                     return self.read_field(VObj(M.C_QUANTITY, "QtyCls"), name)
                 self.raise_("AttributeError")
-        return self.heap.read(arr, ty, v.t, self.path)
+        res = self.heap.read(arr, ty, v.t, self.path)
+        if v.klass == "TypeRegistry" and name == "_item_list" and \
+                isinstance(res, VObj):
+            res = VObj(res.t, "List:cls_buckets")
+        return res
 
     def setattr(self, obj: V, name: str, val: V, frame=None) -> None:
         if not isinstance(obj, VObj):
@@ -811,6 +817,9 @@ class Interp:
         self.heap.write(arr, ty, obj.t, self.bm.coerce_for_field(ty, val))
         if (sk, name) in self.heap.schema.maybe_unset:
             self.heap.set(arr + "#unset", obj.t, z3.BoolVal(False))
+        hook = M.FIELD_HOOKS.get((sk, name))
+        if hook is not None:
+            hook(self, obj, val)
 
     def call_method(self, v: V, name: str, args: List[V], frame=None,
                     kwargs=None) -> V:
